@@ -216,6 +216,22 @@ def generate(tape, tier="quick", force_regime=None):
                     i["info_at_init"], i["info_after"] = False, list(ring_in)
     if cyc:
         cyc["link"] = where[cyc["link"]]
+    if cyc and regime == "b" and tape.chance(1, 4):
+        # a monitor outside the ring reads the ring's feedback through the very same delay adapter object(s): one
+        # adapter serving two consumers whose requests interleave
+        base = links[cyc["link"]]
+        pre = 0
+        for a in base["chain"]:
+            if a["kind"] in ("scale", "callback", "delay_fixed"):
+                pre += 1
+            else:
+                break
+        if pre and any(a["kind"] == "delay_fixed" for a in base["chain"][:pre]) and comps[base["src"][0]]["kind"] == "sim":
+            k = pre if tape.chance(1, 2) else 1 + tape.draw(pre)
+            m = sim(f"s{len(comps)}")
+            comps[m]["inputs"].append({"name": "i0", "initial_pull": tape.chance(1, 2)})
+            links.append({"src": list(base["src"]), "dst": [m, 0], "chain": [dict(a) for a in base["chain"][:k]],
+                          "shared_with": cyc["link"], "shared_len": k})
     sims = [c for c in comps if c["kind"] == "sim"]
     t0 = min(c["start"] for c in sims)
     end = t0 + tape.choice([3, 7, 12, 20, 30])
